@@ -251,7 +251,11 @@ func (e *Exec) where() string {
 	// innermost non-helper go-mc function on the call stack
 	for i := len(e.curFn) - 1; i >= 0; i-- {
 		f := e.curFn[i]
-		if f.Pkg != nil && strings.HasPrefix(f.Pkg.Pkg.Path(), "github.com/Tnze/go-mc") && !strings.Contains(f.Pkg.Pkg.Path(), "zzvp") {
+		pk := f.Pkg
+		if pk == nil && f.Origin() != nil {
+			pk = f.Origin().Pkg
+		}
+		if pk != nil && strings.HasPrefix(pk.Pkg.Path(), "github.com/Tnze/go-mc") && !strings.Contains(pk.Pkg.Path(), "zzvp") {
 			return f.String()
 		}
 	}
